@@ -153,10 +153,28 @@ class Check(object):
         for c in o.get('contracts_hit', []):
             if c not in self.contracts_hit:
                 self.contracts_hit.append(c)
+        if not hasattr(self, 'vac_bad'):
+            self.vac_bad, self.vac_alive = set(), set()
+        self.vac_bad.update(o.get('vacuous_only', ()))
+        self.vac_alive.update(o.get('alive', ()))
 
     # -------------------------------------------------------------- verdict
     def finish(self):
         known = load_known_findings().get(self.prop, [])
+        vac = sorted(getattr(self, 'vac_bad', set()) -
+                     getattr(self, 'vac_alive', set()))
+        for nm in vac:
+            msg = ('%s was proved only on paths whose own hypotheses are '
+                   'contradictory (vacuous proof)' % nm)
+            why = [r for p_, r in getattr(self, 'unreachable_ok', {}).items()
+                   if nm.startswith(p_)]
+            if why:
+                self.notes.append('%s is generated only on paths that are '
+                                  'unreachable in the model: %s' % (nm, why[0]))
+            elif os.environ.get('PYVC_VACUITY', 'strict') == 'strict':
+                self.undecided.append(msg)
+            else:
+                self.notes.append(msg)
         violations = []      # (result, replay path, reproduced)
         known_hits = []
         unknown = []
@@ -200,6 +218,8 @@ class Check(object):
         if exit_code == 0:
             for name, fn, bound, always in self.fallbacks:
                 if not (always or incomplete or self.tier == 'thorough'):
+                    continue
+                if os.environ.get('PYVC_PROOF_ONLY'):
                     continue
                 t1 = time.time()
                 try:
@@ -289,6 +309,8 @@ class Check(object):
                'model': r.model, 'reproduced': False}
         reproduced = False
         for prefix, fn in self.replayers.items():
+            if os.environ.get('PYVC_PROOF_ONLY'):
+                break       # selftest/mutate.py: kill power of the proofs alone
             if r.ob.name.startswith(prefix):
                 try:
                     out = fn(r)
@@ -517,6 +539,7 @@ def _discharge_bucket(chk, obs, label, is_canary_script=False):
             cans[key] = Obligation('vacuity(%s)' % ob.name, 'canary', [],
                                    ob.hyps, z3.BoolVal(False), ob.path,
                                    {'for': ob.name})
+    out['vacuous_only'], out['alive'] = _vacuity_audit(uniq, rs)
     limit = 6
     vs = sorted(cans.values(), key=lambda o: -len(o.hyps))[:limit]
     for r in solve.discharge(vs, 2, procs=1, ground=False):
@@ -527,6 +550,47 @@ def _discharge_bucket(chk, obs, label, is_canary_script=False):
                                     'contracts it uses are inconsistent'
                                     % r.ob.info['for'])
     return out
+
+
+def _vacuity_audit(uniq, rs):
+    """Names of obligations that were proved only in contexts (path condition
+    + hypotheses) that are contradictory on their own: such a proof says
+    nothing about the code.  An infeasible path is legitimate (branch
+    feasibility is decided under a time limit), so a name counts only if
+    *every* instance of it was proved that way; obligations whose goal is
+    literally False (``this path is unreachable``) are exempt."""
+    by_name = {}
+    for ob, r in zip(uniq, rs):
+        if ob.kind == 'canary' or r.status != 'proved' or \
+                r.backend == 'simplifier':
+            continue
+        g = ob.goal
+        if isinstance(g, bool):
+            if not g:
+                continue
+        elif z3.is_false(z3.simplify(g)):
+            continue
+        by_name.setdefault(ob.name, []).append(ob)
+    cache = {}
+    bad, live = [], []
+    for name, obs in sorted(by_name.items()):
+        alive = False
+        for ob in obs[:8]:
+            key = (hash(tuple(f.sexpr() for f in ob.pc)),
+                   hash(tuple(f.sexpr() for f in ob.hyps)))
+            if key not in cache:
+                probe = Obligation('context(%s)' % name, 'canary', ob.pc,
+                                   ob.hyps, z3.BoolVal(False), ob.path, {})
+                res = solve.discharge([probe], 2, procs=1, ground=False)[0]
+                cache[key] = (res.status == 'proved')
+            if not cache[key]:
+                alive = True
+                break
+        if alive or len(obs) > 8:
+            live.append(name)
+        else:
+            bad.append(name)
+    return bad, live
 
 
 def _worker(task):
